@@ -1,6 +1,8 @@
 package main
 
 import (
+	"time"
+	"errors"
 	"fmt"
 	gofs "io/fs"
 	"os"
@@ -258,5 +260,106 @@ func runC09(r *Rng, n int, replay string) {
 		w.CloseAll()
 		done()
 		_ = prefix
+	}
+	// invalid names are refused before any OS call, by EVERY method of the os-backed FS and for either name of a
+	// two-name method: the error matches ErrInvalid, names the caller's name(s), and the directory is untouched
+	type call struct {
+		name string
+		two  bool
+		run  func(fs hackpadfs.FS, a, b string) error
+	}
+	calls := []call{
+		{"Open", false, func(fs hackpadfs.FS, a, _ string) error { f, err := fs.Open(a); closeIf(f); return err }},
+		{"OpenFile", false, func(fs hackpadfs.FS, a, _ string) error {
+			f, err := hackpadfs.OpenFile(fs, a, hackpadfs.FlagReadWrite|hackpadfs.FlagCreate, 0o644)
+			closeIf(f)
+			return err
+		}},
+		{"Create", false, func(fs hackpadfs.FS, a, _ string) error { f, err := hackpadfs.Create(fs, a); closeIf(f); return err }},
+		{"Mkdir", false, func(fs hackpadfs.FS, a, _ string) error { return hackpadfs.Mkdir(fs, a, 0o755) }},
+		{"MkdirAll", false, func(fs hackpadfs.FS, a, _ string) error { return hackpadfs.MkdirAll(fs, a, 0o755) }},
+		{"Remove", false, func(fs hackpadfs.FS, a, _ string) error { return hackpadfs.Remove(fs, a) }},
+		{"RemoveAll", false, func(fs hackpadfs.FS, a, _ string) error { return hackpadfs.RemoveAll(fs, a) }},
+		{"Stat", false, func(fs hackpadfs.FS, a, _ string) error { _, err := hackpadfs.Stat(fs, a); return err }},
+		{"Lstat", false, func(fs hackpadfs.FS, a, _ string) error { _, err := hackpadfs.Lstat(fs, a); return err }},
+		{"Chmod", false, func(fs hackpadfs.FS, a, _ string) error { return hackpadfs.Chmod(fs, a, 0o600) }},
+		{"Chown", false, func(fs hackpadfs.FS, a, _ string) error { return hackpadfs.Chown(fs, a, os.Getuid(), os.Getgid()) }},
+		{"Chtimes", false, func(fs hackpadfs.FS, a, _ string) error {
+			return hackpadfs.Chtimes(fs, a, time.Unix(1000, 0), time.Unix(1000, 0))
+		}},
+		{"ReadDir", false, func(fs hackpadfs.FS, a, _ string) error { _, err := hackpadfs.ReadDir(fs, a); return err }},
+		{"ReadFile", false, func(fs hackpadfs.FS, a, _ string) error { _, err := hackpadfs.ReadFile(fs, a); return err }},
+		{"WriteFullFile", false, func(fs hackpadfs.FS, a, _ string) error { return hackpadfs.WriteFullFile(fs, a, []byte{7}, 0o644) }},
+		{"Sub", false, func(fs hackpadfs.FS, a, _ string) error { _, err := hackpadfs.Sub(fs, a); return err }},
+		{"Rename", true, func(fs hackpadfs.FS, a, b string) error { return hackpadfs.Rename(fs, a, b) }},
+		{"Symlink", true, func(fs hackpadfs.FS, a, b string) error { return hackpadfs.Symlink(fs, a, b) }},
+	}
+	invalid := []string{"", "/", "/f", "f/", "d//x", "./f", "d/.", "..", "../f", "d/../f", "d/./x", "\xff", "d/\xff"}
+	for depth := 0; depth < 2; depth++ {
+		for _, cl := range calls {
+			for _, bad := range invalid {
+				for pos := 0; pos < 2; pos++ {
+					if pos == 1 && !cl.two {
+						continue
+					}
+					base, done := newOSWorld()
+					var fs hackpadfs.FS = base
+					if depth == 1 {
+						_ = hackpadfs.Mkdir(fs, "s", 0o755)
+						sub, err := hackpadfs.Sub(fs, "s")
+						if err != nil {
+							panic(err)
+						}
+						fs = sub
+					}
+					_ = hackpadfs.WriteFullFile(fs, "f", []byte{1}, 0o644)
+					_ = hackpadfs.Mkdir(fs, "d", 0o755)
+					cands := candidatePaths([]string{"f", "d", "x", "s", "link"}, 2)
+					before := Snapshot(base, cands)
+					a, b := bad, "link"
+					if pos == 1 {
+						a, b = "f", bad
+					}
+					var err error
+					func() {
+						defer func() {
+							if e := recover(); e != nil {
+								err = fmt.Errorf("panic: %v", e)
+							}
+						}()
+						err = cl.run(fs, a, b)
+					}()
+					c := &Case{Kind: "osinvalid", Trivial: true}
+					c.Cells = []string{"osinvalid/" + cl.name}
+					if cl.two {
+						c.Text = []string{fmt.Sprintf("[os.FS under %d Sub roots] %s(%q, %q) -> %v", depth, cl.name, a, b, err)}
+					} else {
+						c.Text = []string{fmt.Sprintf("[os.FS under %d Sub roots] %s(%q) -> %v", depth, cl.name, a, err)}
+					}
+					switch {
+					case err == nil:
+						c.fail(c.Text[0]+": an invalid name was accepted", "osinvalid:accepted:"+cl.name)
+					case !errors.Is(err, hackpadfs.ErrInvalid):
+						c.fail(c.Text[0]+": the error does not match ErrInvalid (the name went to the OS, or was rewritten)", "osinvalid:class:"+cl.name)
+					default:
+						ce := canonErr(err)
+						if ce.Kind == "P" && ce.Path != a || ce.Kind == "L" && (ce.Old != a || ce.New != b) {
+							c.fail(c.Text[0]+": the error does not name the caller's name(s)", "osinvalid:path:"+cl.name)
+						}
+					}
+					if d := snapDiffExact(before, Snapshot(base, cands)); d != "" {
+						c.fail(c.Text[0]+": changed the directory: "+d, "osinvalid:changed:"+cl.name)
+					}
+					done()
+					emitC(c)
+				}
+			}
+		}
+	}
+}
+
+func closeIf(f hackpadfs.File) {
+	if f != nil {
+		_ = f.Close()
 	}
 }
